@@ -10,6 +10,7 @@ R-POLYGUARD    fewer than three polygon vertices => no intersection; the contact
                is interpreted; the degenerate (zero normal) case is tested before dividing.
 """
 import ast
+import re
 
 from ..core.astutil import u, call_name, calls, iter_stmts, compare_triples, const, is_neg_of, parent_map, index_elts, ncmp
 from ..core.index import AnalysisError
@@ -262,3 +263,173 @@ def r_polyguard(idx, rep, rule="R-POLYGUARD"):
               "contact_plane must compute the norm of plane[:3], return the degenerate case when it is 0, then divide the plane by it")
     rep.check(bool(flip) and bool(div) and div[0].lineno < flip[0].lineno, rule, cp.key + "|offset used after normalisation", cp.where,
               "the offset component [3] is modified/used before the plane is normalised")
+
+
+def _bool_eval(node, val):
+    """evaluate a boolean expression given val(compare_node) -> bool"""
+    if isinstance(node, ast.BoolOp):
+        vs = [_bool_eval(v, val) for v in node.values]
+        return all(vs) if isinstance(node.op, ast.And) else any(vs)
+    if isinstance(node, ast.UnaryOp) and isinstance(node.op, ast.Not):
+        return not _bool_eval(node.operand, val)
+    if isinstance(node, ast.Compare):
+        if len(node.ops) == 1:
+            return val(node)
+        # chained: a < b < c
+        left = node.left
+        out = True
+        for op, right in zip(node.ops, node.comparators):
+            out = out and val(ast.Compare(left=left, ops=[op], comparators=[right]))
+            left = right
+        return out
+    if isinstance(node, ast.Constant):
+        return bool(node.value)
+    raise AnalysisError("boolean structure not understood: %s" % u(node))
+
+
+def r_planecross(idx, rep, rule="R-PLANECROSS"):
+    rep.rule(rule, "check_tetrahedra_intersect_contact_plane is True exactly when BOTH tetrahedra have a vertex strictly below "
+                   "-tolerance and one strictly above +tolerance (truth table over the four comparisons, by constant evaluation of "
+                   "the function's boolean structure)", floor=2)
+    import itertools
+    f = idx.func(HY + "_tetrahedron_intersection::check_tetrahedra_intersect_contact_plane")
+    ps = f.params()
+    t1, t2, nrm, dd, tol = ps[:5]
+    loc = {}
+    for st in iter_stmts(f.node.body):
+        if isinstance(st, ast.Assign) and isinstance(st.targets[0], ast.Name):
+            loc[st.targets[0].id] = st.value
+
+    def which(x):
+        """'min1' / 'max2' ... for min(<signed distances of tetrahedron k>)"""
+        if isinstance(x, ast.Call) and call_name(x) in ("min", "max", "np.min", "np.max") and x.args:
+            a = x.args[0]
+            a = loc.get(a.id, a) if isinstance(a, ast.Name) else a
+            txt = u(a).replace(" ", "")
+            for k, t in ((1, t1), (2, t2)):
+                if txt in ("%s.dot(%s)-%s" % (t, nrm, dd), "np.dot(%s,%s)-%s" % (t, nrm, dd)):
+                    return call_name(x).split(".")[-1] + str(k)
+        return None
+
+    def atom(cmp_):
+        n = ncmp(cmp_)
+        if n is None:
+            return None
+        op, a, b = n
+        wa, wb = which(a), which(b)
+        # min_k < -tol   |   tol < max_k      (and their complements  -tol <= min_k , max_k <= tol)
+        if wa and wa.startswith("min") and u(b).replace(" ", "") == "-" + tol:
+            return (wa, op == "<", True) if op in ("<", "<=") else None
+        if wb and wb.startswith("min") and u(a).replace(" ", "") == "-" + tol:
+            return (wb, op == "<=", False) if op in ("<", "<=") else None        # -tol <(=) min  == not (min <(=) -tol)
+        if wb and wb.startswith("max") and u(a) == tol:
+            return (wb, op == "<", True) if op in ("<", "<=") else None
+        if wa and wa.startswith("max") and u(b) == tol:
+            return (wa, op == "<=", False) if op in ("<", "<=") else None
+        return None
+    atoms = {}
+    for n in ast.walk(f.node):
+        if isinstance(n, ast.Compare):
+            left = n.left
+            for op, right in zip(n.ops, n.comparators):
+                c = ast.Compare(left=left, ops=[op], comparators=[right])
+                a = atom(c)
+                if a is None:
+                    w = which(c.left) or which(c.comparators[0])
+                    if w is not None:
+                        rep.bad(rule, f.key + "|strict beyond the tolerance", f.where,
+                                "`%s` compares the %s signed distance of tetrahedron %s with the wrong threshold: a vertex counts as below the plane only "
+                                "beyond -tolerance and as above only beyond +tolerance (min < -tolerance, max > tolerance)" % (u(c), w[:3], w[3]))
+                        return
+                    raise AnalysisError("check_tetrahedra_intersect_contact_plane: comparison `%s` is not min/max of a tetrahedron's signed distances against +-tolerance" % u(c))
+                atoms[u(c)] = a
+                left = right
+    names = sorted({a[0] for a in atoms.values()})
+    rep.check(names == ["max1", "max2", "min1", "min2"], rule, f.key + "|four comparisons", f.where,
+              "the test must look at min and max of both tetrahedra; it looks at %s" % names)
+    strict = all(a[1] for a in atoms.values())
+    rep.check(strict, rule, f.key + "|strict beyond the tolerance", f.where, "a comparison is non-strict / complemented inconsistently: %s" % atoms)
+    if names != ["max1", "max2", "min1", "min2"]:
+        return
+    bad = []
+    for bits in itertools.product([False, True], repeat=4):
+        truth = dict(zip(names, bits))          # truth[x] == 'x is beyond its tolerance'
+
+        def val(c):
+            nm, _, pos = atoms[u(c)]
+            return truth[nm] if pos else (not truth[nm])
+        # run the body
+        res = None
+        def run(body):
+            for st in body:
+                if isinstance(st, ast.Return):
+                    return _bool_eval(st.value, val)
+                if isinstance(st, ast.If):
+                    r = run(st.body) if _bool_eval(st.test, val) else run(st.orelse)
+                    if r is not None:
+                        return r
+            return None
+        res = run(f.node.body)
+        if res is None:
+            raise AnalysisError("check_tetrahedra_intersect_contact_plane: a path without return")
+        if res != all(bits):
+            bad.append((truth, res))
+    rep.check(not bad, rule, f.key + "|True iff all four hold", f.where,
+              "the function returns %s for %s: both tetrahedra must straddle the contact plane (a polygon is otherwise built from an unbounded "
+              "prism of the remaining half-planes)" % (bad[0][1] if bad else "", bad[0][0] if bad else ""), "16 truth assignments")
+
+
+ALIASING_WRAPPERS = ("np.asarray", "np.ascontiguousarray", "np.asanyarray", "np.atleast_2d", "np.squeeze", "np.reshape")
+
+
+def _may_alias(expr, pname):
+    """expression may be the very array object bound to parameter pname (no copy)"""
+    if isinstance(expr, ast.Name):
+        return expr.id == pname
+    if isinstance(expr, ast.Call):
+        cn = call_name(expr) or ""
+        if cn in ALIASING_WRAPPERS and expr.args:
+            return _may_alias(expr.args[0], pname)
+        if isinstance(expr.func, ast.Attribute) and expr.func.attr in ("view", "reshape", "squeeze", "astype") and not expr.args:
+            return _may_alias(expr.func.value, pname)
+        if isinstance(expr.func, ast.Attribute) and expr.func.attr == "astype":
+            # astype(..., copy=False) aliases
+            if any(k.arg == "copy" and const(k.value) is False for k in expr.keywords):
+                return _may_alias(expr.func.value, pname)
+        return False
+    if isinstance(expr, ast.Subscript):
+        return _may_alias(expr.value, pname)     # basic slices are views
+    if isinstance(expr, ast.Attribute) and expr.attr == "T":
+        return _may_alias(expr.value, pname)
+    return False
+
+
+def r_sharedpose(idx, rep, rule="R-SHAREDPOSE"):
+    rep.rule(rule, "a method that receives another body's pose array stores a COPY: two rigid bodies never share one mutable pose "
+                   "array (otherwise moving one body in place moves the other, and repeated contact queries depend on the call history)",
+             floor=1)
+    ci = idx.cls(HY + "_rigid_body::RigidBody")
+    # call sites  X.m(Y.attr)  with X, Y different objects, m a RigidBody method
+    n = 0
+    for f in idx.all_functions():
+        if f.module.is_test or "hydroelastic" not in f.module.name:
+            continue
+        for c in calls(f.node):
+            if not isinstance(c.func, ast.Attribute) or c.func.attr not in ci.methods:
+                continue
+            recv = u(c.func.value)
+            m = ci.methods[c.func.attr]
+            ps = [p for p in m.params() if p != "self"]
+            for i, a in enumerate(c.args):
+                if isinstance(a, ast.Attribute) and isinstance(a.value, ast.Name) and u(a.value) != recv and u(a.value) != "self" and i < len(ps) \
+                        and re.match(r"^[a-z_]+2[a-z_]+$", a.attr):
+                    pname = ps[i]
+                    n += 1
+                    key = "%s|%s(<other>.%s) stores a copy" % (f.key, m.qualname, a.attr)
+                    stores = [st for st in iter_stmts(m.node.body) if isinstance(st, ast.Assign) and any(isinstance(t, ast.Attribute) and u(t.value) == "self" for t in st.targets)
+                              and _may_alias(st.value, pname)]
+                    rep.check(not stores, rule, key, "%s:%d" % (f.module.relpath, c.lineno),
+                              "%s is given %s and %s stores it without copying (`%s`): both bodies now share one pose array, so an in-place pose update of one "
+                              "body silently moves the other" % (u(c.func), u(a), m.qualname, u(stores[0]) if stores else ""), "copied")
+    if n == 0:
+        rep.error("R-SHAREDPOSE: no call site passing another body's attribute found")
